@@ -1,0 +1,29 @@
+//go:build verif
+// +build verif
+
+package format
+
+// Contracts for the deductive verifier in /verif (comment-only file, build tag `verif`).
+
+// A-GLOBALS: the separator is '/', never reassigned (checked: no store to SEP outside the package initialiser)
+//@ global-const SEP 47
+
+// C01/C19: the tokenizer. Byte level (proved): the first level is everything before the first '/', the rest everything after
+// it; without a '/' the whole topic is the level and the rest is nil.
+//@ trusted func bytes.IndexByte(b []byte, c byte) (r int)
+//@   ensures -1 <= r && r < len(b)
+//@   ensures r >= 0 ==> b[r] == c && (forall i int :: {b[i]} 0 <= i && i < r ==> b[i] != c)
+//@   ensures r == -1 ==> (forall i int :: {b[i]} 0 <= i && i < len(b) ==> b[i] != c)
+//@   ensures r >= 0 ==> string(b)[r] == c
+//@   pure
+
+//@ func (Topic).Next() (rest Topic, token string)
+//@   ensures (forall i int :: {t[i]} 0 <= i && i < len(t) ==> t[i] != 47) ==> rest == nil && token == string(t)
+//@   ensures (exists i int :: {t[i]} 0 <= i && i < len(t) && t[i] == 47) ==>
+//@       (exists e int :: {t[e]} 0 <= e && e < len(t) && t[e] == 47 && (forall i int :: {t[i]} 0 <= i && i < e ==> t[i] != 47)
+//@           && len(token) == e && (forall i int :: 0 <= i && i < e ==> token[i] == t[i])
+//@           && len(rest) == len(t) - e - 1 && base(rest) == base(t) && off(rest) == off(t) + e + 1)
+// the same, on the topic read as a string (the level functions of /verif/specs/40_topics.spec)
+//@   ensures token == lfirst(string(t)) && string(rest) == lrest(string(t))
+//@   ensures rest == nil <==> fslash(string(t)) < 0
+//@   modifies nothing
